@@ -301,9 +301,11 @@ class RegionGeom:
     def find_lat_long_along_traj(self, dist_along_traj):
         # Compute xyz-coordinates in ENU frame of los between detector and spot on the ground
 
-        xPath_v = dist_along_traj * np.sin(self.thetas()) * np.cos(self.phis())
+        # The trajectory azimuth is measured from the direction pointing away from the
+        # local vertical (the convention of costhetaTrSubN in throw), i.e. from -y here.
+        xPath_v = dist_along_traj * np.sin(self.thetas()) * np.sin(self.phis())
 
-        yPath_v = dist_along_traj * np.sin(self.thetas()) * np.sin(
+        yPath_v = -dist_along_traj * np.sin(self.thetas()) * np.cos(
             self.phis()
         ) + self.earth_radius * np.cos(self.valid_elevAngVSubN())
 
